@@ -367,6 +367,45 @@ def splitLines (s : List Char) : List (List Char) := splitLinesAux s []
 def confFile (fmt : Format) (d : Data) (fuel : Nat) (text : List Char) : Except Err (List Char × List Name × Bool) :=
   (confStr fmt d fuel (splitLines text)).map fun o => (o.lines.flatten, o.missing, o.useless)
 
+/-! ### byte layer of `do_conf_file` : `open(src, encoding=…)` … `open(dst, 'w', encoding=…)` -/
+
+abbrev Bytes := List UInt8
+
+/-- a text encoding as the file layer uses it: `decode` fails on invalid input (`UnicodeDecodeError`),
+`encode` fails on characters the encoding lacks (`UnicodeEncodeError`) -/
+structure Codec where
+  decode : Bytes → Option (List Char)
+  encode : List Char → Option Bytes
+
+inductive FileErr where
+  | read            -- MesonException 'Could not read input file …'
+  | write           -- MesonException 'Could not write output file …'
+  | conf (e : Err)  -- error of the substitution itself
+  deriving Repr, DecidableEq
+
+/-- `do_conf_file` on bytes: decode with `encoding`, `readlines`, substitute, `writelines`, encode with the
+*same* `encoding` -/
+def confFileBytes (c : Codec) (fmt : Format) (d : Data) (fuel : Nat) (src : Bytes) : Except FileErr Bytes :=
+  match c.decode src with
+  | none => .error .read
+  | some text =>
+    match confFile fmt d fuel text with
+    | .error e => .error (.conf e)
+    | .ok (out, _, _) =>
+      match c.encode out with
+      | none => .error .write
+      | some b => .ok b
+
+/-- iso-8859-1 : byte = code point -/
+def latin1 : Codec where
+  decode b := some (b.map fun x => Char.ofNat x.toNat)
+  encode t := t.mapM fun c => if c.toNat < 256 then some c.toNat.toUInt8 else none
+
+/-- utf-8 (strict, no BOM handling) -/
+def utf8 : Codec where
+  decode b := (String.fromUTF8? (ByteArray.mk b.toArray)).map String.toList
+  encode t := some (String.ofList t).toUTF8.toList
+
 /-! ### header without a template : `_dump_c_header` -/
 
 structure Entry where
